@@ -369,7 +369,7 @@ PROPS = {
         "level": "model_checking",
         "technique": "explicit enumeration of directory trees (materialized on disk) x omit-extension settings x mount routes x variants, and of all file / directory / traversal / encoding / near-miss requests; responses of the real router are compared with the path->(bytes, mime) map computed from the tree",
         "engine": "vmc",
-        "level_text": "Bounded exhaustive exploration of configuration x input space: trees of 1..2 (quick) / 1..3 (thorough) entries from 8 file kinds (every supported text/binary extension class, an empty file, a 256-byte-values binary, index.html) x 4 directories nested <=2 deep, omit_extensions in {-, [html], [html,txt]}, mount routes /, /s, /s/t, variants {plain, sibling param route, symlink to a file outside, files modified/deleted/added after mounting}; per configuration every file path (GET/HEAD/POST, trailing slash), every directory path, .. / %2e%2e / // / %2F variants, near-miss names, paths of outside files.",
+        "level_text": "Bounded exhaustive exploration of configuration x input space: trees of 1..2 (quick, complete) / 1..3 (thorough, triples thinned) entries from 8 file kinds (every supported text/binary extension class, an empty file, a 256-byte-values binary, index.html) x 4 directories nested <=2 deep, omit_extensions in {-, [html], [html,txt]}, mount routes /, /s, /s/t, variants {plain, sibling param route, symlink to a file outside, files modified/deleted/added after mounting}; per configuration every file path (GET/HEAD/POST, trailing slash), every directory path, .. / %2e%2e / // / %2F variants, near-miss names, paths of outside files.",
         "level_note": "Trusted: the path map computed from the tree description, the C01 reference matcher (for the sibling param route), the independent HTTP response parser. Trees the framework documents as unsupported (two files mapping to one path) are skipped and counted; `/index` with html omitted and percent-encoded ordinary characters are counted as ambiguous. Scratch trees live on tmpfs (/dev/shm) when available.",
         "jobs": {"quick": 16, "thorough": 16},
         "assumptions": ROUTER_ASSUMPTIONS + ["the directory tree is created by the harness on a local file system; only regular files, directories and one symlink are generated"],
